@@ -633,7 +633,7 @@ func ruleSchedLoop(w *World, r *RuleResult) {
 			continue
 		}
 		multi := hasCond(p, func(a *T, v bool) bool {
-			return a.Op == "lt" && v && a.A[0].IsConstVal(1) && c.isRecvField(a.A[1], c.a.CountField)
+			return a.Op == "lt" && v && a.A[0].IsConstVal(1) && c.isCount(a.A[1])
 		})
 		// the living count as it stands at the return: its value on entry plus delta
 		delta := int64(0)
@@ -895,7 +895,7 @@ func ruleRunProgress(w *World, r *RuleResult) {
 			}
 		}
 		multi := hasCond(p, func(a *T, v bool) bool {
-			return a.Op == "lt" && v && a.A[0].IsConstVal(1) && c.isRecvField(a.A[1], c.a.CountField)
+			return a.Op == "lt" && v && a.A[0].IsConstVal(1) && c.isCount(a.A[1])
 		})
 		var stuck []string
 		for _, nOne := range []bool{true, false} {
@@ -1019,6 +1019,9 @@ func ruleAPIIndex(w *World, r *RuleResult) {
 						app += 10
 					}
 				}
+			}
+			if c.a.CountField == "" {
+				continue // the count is len(list) itself: nothing to keep in step
 			}
 			if cnt+app > 0 {
 				d.add(cnt == 1 && app == 1, fn.Name()+"/count==len", c.posOf(ev), "count incremented exactly when one warrior is appended", "warrior count and warrior list are not updated together (count == len(list) would break)")
